@@ -666,6 +666,12 @@ def gen_agge(full):
     yield Case('AGGE', Program([R('T', x, value=Comb('Max', y, ib), body=(Lit('B', x),))]), ['T'])
   yield Case('AGGE', Program([R('T', x, s_, body=(Lit('B', x), Eq(s_, Comb('Sum', y, (('in', y, ('list', (x, N(1), N(2)))),)))))]), ['T'])
   yield Case('AGGE', Program([R('T', x, s_, body=(Lit('B', x), Eq(s_, Comb('List', y, (('in', y, ('list', (x, N(1)))), Cmp('>', y, N(1)))))))]), ['T'])
+  # composite values (records, lists) collected by an aggregating expression: the same list of values as the predicate-level aggregation gives
+  recv = ('rec', (('v', y), ('k', x)))
+  for form in comb_forms(s_, 'List', recv, (Lit('A', x, y),)):
+    yield Case('AGGE', Program([R('T', x, s_, body=(Lit('B', x), form))]), ['T'])
+  yield Case('AGGE', Program([R('T', x, s_, body=(Lit('B', x), Eq(s_, Comb('List', ('list', (y, x)), (Lit('A', x, y),)))))]), ['T'])
+  yield Case('AGGH', Program([R('T', x, Aggr('List', recv), body=(Lit('A', x, y),), distinct=True)]), ['T'])
   # an injectible function whose value is an aggregating expression, used twice in one rule, one use feeding the other
   Fs = R('Fs', x, value=Comb('Sum', y, (Lit('A', x, y),)))
   Fc = R('Fc', x, value=Comb('Count', y, (Lit('A', y, x),)))
